@@ -8,7 +8,9 @@ the result) is run over the same generated definitions
     every definition's output must equal the one it has in the reference run;
   * scenario part (c12_scen.py, scenario_oracle): sequences of functions, classes, bare docstrings and argparse
     functions that contain conversions which RAISE part-way (caught, the driver goes on), lines with several default
-    announcements, empty / blank / stub docstrings and repeated points; every point of every run (seed sweep in natural
+    announcements, empty / blank / stub docstrings, prose that uses another docstring dialect's section markers,
+    families of definitions whose defaults are equal across types (1 / 1.0 / True / '1') and repeated points; every
+    point of every run (seed sweep in natural
     order, reversed, doubled and shuffled orders in one process) must equal the same point converted ALONE in a fresh
     process.  A difference is attributed to the hash seed (witness: the point and two seeds) or to the history
     (witness: the point and a delta-debugged list of earlier conversions; check_case replays both forms).
@@ -577,7 +579,8 @@ def oracle(rng, tier):
                 "processes + shuffled call orders in one process + single-definition fresh processes; outputs compared "
                 "byte for byte; non-trivial = distinct definition with >= 2 strata tags.  Scenario part (c12_scen): "
                 "sequences of functions, classes, bare docstrings and argparse functions with failing conversions, "
-                "several default announcements per line, empty docstrings and repeats; every point of every run (seed "
+                "several default announcements per line, empty docstrings, prose using another dialect's section "
+                "markers, families of defaults equal across types (1, 1.0, True, '1') and repeats; every point of every run (seed "
                 "sweep, reversed, doubled and shuffled orders) is compared with the same point converted alone in a "
                 "fresh process; differences are attributed to the hash seed or to a minimised history",
         "failures": short,
